@@ -142,6 +142,7 @@ impl Monitor for C05 {
                "t_cols": t.schema.cols.iter().map(|(n, _)| n.clone()).collect::<Vec<_>>(), "u_cols": u.schema.cols.iter().map(|(n, _)| n.clone()).collect::<Vec<_>>(),
                "fault": match rng.below(12) { 0 => "missing-file", 1 => "missing-table", 2 => "missing-joined-column", 3 => "missing-joiner-column", _ => "none" },
                // the faulty statement sometimes carries a LIMIT (0: no row can be produced - the fault is an error all the same)
+               "u_crlf": rng.chance(1, 4), "u_unterminated": rng.chance(1, 6),
                "fault_limit": match rng.below(4) { 0 => json!(0), 1 => json!(rng.below(3) + 1), _ => J::Null }})
     }
 
@@ -153,7 +154,12 @@ impl Monitor for C05 {
         let fault = case["fault"].as_str().unwrap_or("none");
         let tag = case_hash(case);
         let tables = match eng::tables_from(case["tables"].as_str().unwrap_or("")) { Ok(t) => t, Err(e) => return Verdict::Inconclusive(format!("table: {}", e.show())) };
-        let upath = eng::write_scratch(&format!("c05-u-{}.log", tag), ul.iter().map(|l| format!("{}\n", l)).collect::<String>().as_bytes());
+        // the joined file is written with LF or CRLF line ends, sometimes without the final line end: the same lines either way
+        let eol = if case["u_crlf"] == true { "\r\n" } else { "\n" };
+        let mut utext: String = ul.iter().map(|l| format!("{}{}", l, eol)).collect();
+        if case["u_unterminated"] == true && !ul.last().map(|l| l.is_empty()).unwrap_or(true) { utext.truncate(utext.len() - eol.len()); }
+        if case["u_crlf"] == true { obs.hit("joined-file:crlf"); }
+        let upath = eng::write_scratch(&format!("c05-u-{}.log", tag), utext.as_bytes());
         let cleanup = || { let _ = std::fs::remove_file(&upath); };
         obs.hit(&format!("fault:{}", fault));
 
